@@ -176,10 +176,175 @@ def lexS (o : VOpts) (st : TState) (u : Bytes) (pos : Nat) (es : List Event) (f0
     else if k == 0x5D then .res (feed st pos 1 Machine.popArray) pos u es f0
     else .res (.err pos .invalidChar) pos u es f0
 
-/-- `decoderState.ReadToken` without a cached peek, on the unread buffer `u`: leading blanks, end of input,
-an optional `:`/`,` and blanks (a read error there is outranked by an invalid delimiter:
-`checkDelimBeforeIOError`), `needDelim`, then the token. -/
-def scanToken (o : VOpts) (st : TState) (u : Bytes) (es : List Event) : SRes :=
+/-! ### one value (`decoderState.consumeValue / consumeObject / consumeArray`, decode.go:856-1129)
+
+The recursive descent works on the unread buffer `u` at absolute positions; every blank run, literal, string and
+number inside the value is scanned by the corresponding refill loop at its position (`pos` is re-based after every
+fetch, so from the point of view of the unread buffer refills only append).  Offsets in results are relative to the
+position the function was entered at, with the same arithmetic as Model/Validate.lean, which models the same code
+over a complete buffer.  As there, `d.Tokens.Last` in the `default` arm of consumeValue is the top-level entry; the
+two classes it chooses between are one class after `wrapSyntacticError` (`Validate.observe`). -/
+
+def Fill.rebase {β : Type} (F : Fill β) (u : Bytes) (q : Nat) : Fill β :=
+  match F with
+  | .done b x es f => .done b (u.take q ++ x) es f
+  | .fault x es => .fault (u.take q ++ x) es
+
+def Fill.map {β γ : Type} (g : β → γ) : Fill β → Fill γ
+  | .done b x es f => .done (g b) x es f
+  | .fault x es => .fault x es
+
+/-- blanks from position `q` on: (length of the run, is there a non-blank byte behind it) -/
+def wsAt (u : Bytes) (q : Nat) (es : List Event) : Fill (Nat × Bool) :=
+  (sWhitespace (u.drop q) 0 es).rebase u q
+
+/-- `case 'n' / 'f' / 't'` of consumeValue at `q` -/
+def litAt (l : Bytes) (u : Bytes) (q : Nat) (es : List Event) : Fill (Nat × Wire.Err) :=
+  if Wire.consumeExact l (u.drop q) != 0 then .done (Wire.consumeExact l (u.drop q), .ok) u es false
+  else ((sLiteral l (u.drop q) es).map fun b => (b.1, toWire b.2)).rebase u q
+
+/-- `case '"'` of consumeValue (and the member names of consumeObject) at `q` -/
+def strAt (o : VOpts) (u : Bytes) (q : Nat) (es : List Event) : Fill (Nat × Wire.ValueFlags × Wire.Err) :=
+  if Wire.consumeSimpleString (u.drop q) != 0 then .done (Wire.consumeSimpleString (u.drop q), {}, .ok) u es false
+  else ((sString (!o.allowInvalidUTF8) (u.drop q) es).map fun b => (b.1, toWireFlags b.2.1, toWire b.2.2)).rebase u q
+
+/-- `case '0'` of consumeValue at `q` -/
+def numAt (u : Bytes) (q : Nat) (es : List Event) : Fill (Nat × Wire.Err) :=
+  if Wire.consumeSimpleNumber (u.drop q) == 0 || Wire.lenLt (u.drop q) (Wire.consumeSimpleNumber (u.drop q) + 1) then
+    ((sNumber (u.drop q) es).map fun b => (b.1, toWire b.2)).rebase u q
+  else .done (Wire.consumeSimpleNumber (u.drop q), .ok) u es false
+
+/-- result of scanning a value: `n` and the class are what consumeValue returns relative to its start -/
+inductive VRes where
+  | fault (u : Bytes) (es : List Event)
+  | done (n : Nat) (e : Wire.Err) (u : Bytes) (es : List Event) (fetched : Bool)
+
+def VRes.addOff (k : Nat) (f0 : Bool) : VRes → VRes
+  | .fault u es => .fault u es
+  | .done n e u es f => .done (k + n) e u es (f0 || f)
+
+def VRes.ofFill (f0 : Bool) : Fill (Nat × Wire.Err) → VRes
+  | .fault u es => .fault u es
+  | .done b u es f => .done b.1 b.2 u es (f0 || f)
+
+def byteAt (u : Bytes) (q : Nat) : UInt8 :=
+  match u.drop q with
+  | c :: _ => c
+  | [] => 0
+
+mutual
+/-- decoderState.consumeValue at `p` (`u[p:]` is not empty) -/
+def sValue (o : VOpts) : Nat → Nat → Bytes → Nat → List Event → VRes
+  | 0, _, u, _, es => .done 0 .fuel u es false
+  | fuel + 1, depth, u, p, es =>
+    match u.drop p with
+    | [] => .done 0 .bug u es false
+    | c :: _ =>
+      let k := normKind c
+      if k == 0x6E then .ofFill false (litAt Wire.litNull u p es)
+      else if k == 0x66 then .ofFill false (litAt Wire.litFalse u p es)
+      else if k == 0x74 then .ofFill false (litAt Wire.litTrue u p es)
+      else if k == 0x22 then .ofFill false ((strAt o u p es).map fun b => (b.1, b.2.2))
+      else if k == 0x30 then .ofFill false (numAt u p es)
+      else if k == 0x7B then sObject o fuel depth u p es
+      else if k == 0x5B then sArray o fuel depth u p es
+      else if k == 0x7D then .done 0 .mismatchDelim u es false
+      else .done 0 .invalidChar u es false
+
+/-- decoderState.consumeObject at `p` (`u[p]` is `{`) -/
+def sObject (o : VOpts) : Nat → Nat → Bytes → Nat → List Event → VRes
+  | 0, _, u, _, es => .done 0 .fuel u es false
+  | fuel + 1, depth, u, p, es =>
+    if depth == maxNestingDepth + 1 then .done 0 .maxDepth u es false else
+    match wsAt u (p + 1) es with
+    | .fault u1 es1 => .fault u1 es1
+    | .done (w, found) u1 es1 f1 =>
+      if !found then .done (1 + w) .eof u1 es1 f1
+      else if byteAt u1 (p + 1 + w) == 0x7D then .done (1 + w + 1) .ok u1 es1 f1
+      else (sObjectLoop o fuel (depth + 1) [] u1 (p + 1 + w) es1).addOff (1 + w) f1
+
+/-- the `for` loop of consumeObject from `p` on -/
+def sObjectLoop (o : VOpts) : Nat → Nat → List Bytes → Bytes → Nat → List Event → VRes
+  | 0, _, _, u, _, es => .done 0 .fuel u es false
+  | fuel + 1, depth, names, u, p, es =>
+    -- before name
+    match wsAt u p es with
+    | .fault u1 es1 => .fault u1 es1
+    | .done (w, found) u1 es1 f1 =>
+      if !found then .done w .eof u1 es1 f1 else
+      match strAt o u1 (p + w) es1 with
+      | .fault u2 es2 => .fault u2 es2
+      | .done (n, fl, e) u2 es2 f2 =>
+        if e != .ok then .done (w + n) e u2 es2 (f1 || f2) else
+        let name := unescapedName ((u2.drop (p + w)).take n) fl
+        if !o.allowDup && names.contains name then .done w .dupName u2 es2 (f1 || f2) else
+        let names' := if o.allowDup then names else names ++ [name]
+        -- after name
+        match wsAt u2 (p + w + n) es2 with
+        | .fault u3 es3 => .fault u3 es3
+        | .done (w2, found2) u3 es3 f3 =>
+          if !found2 then .done (w + n + w2) .eof u3 es3 (f1 || f2 || f3) else
+          if byteAt u3 (p + w + n + w2) != 0x3A then .done (w + n + w2) .invalidChar u3 es3 (f1 || f2 || f3) else
+          -- before value
+          match wsAt u3 (p + w + n + w2 + 1) es3 with
+          | .fault u4 es4 => .fault u4 es4
+          | .done (w3, found3) u4 es4 f4 =>
+            if !found3 then .done (w + n + w2 + 1 + w3) .eof u4 es4 (f1 || f2 || f3 || f4) else
+            match sValue o fuel depth u4 (p + w + n + w2 + 1 + w3) es4 with
+            | .fault u5 es5 => .fault u5 es5
+            | .done k e u5 es5 f5 =>
+              if e != .ok then .done (w + n + w2 + 1 + w3 + k) e u5 es5 (f1 || f2 || f3 || f4 || f5) else
+              -- after value
+              match wsAt u5 (p + w + n + w2 + 1 + w3 + k) es5 with
+              | .fault u6 es6 => .fault u6 es6
+              | .done (w4, found4) u6 es6 f6 =>
+                if !found4 then .done (w + n + w2 + 1 + w3 + k + w4) .eof u6 es6 (f1 || f2 || f3 || f4 || f5 || f6)
+                else if byteAt u6 (p + w + n + w2 + 1 + w3 + k + w4) == 0x2C then
+                  (sObjectLoop o fuel depth names' u6 (p + w + n + w2 + 1 + w3 + k + w4 + 1) es6).addOff
+                    (w + n + w2 + 1 + w3 + k + w4 + 1) (f1 || f2 || f3 || f4 || f5 || f6)
+                else if byteAt u6 (p + w + n + w2 + 1 + w3 + k + w4) == 0x7D then
+                  .done (w + n + w2 + 1 + w3 + k + w4 + 1) .ok u6 es6 (f1 || f2 || f3 || f4 || f5 || f6)
+                else .done (w + n + w2 + 1 + w3 + k + w4) .invalidChar u6 es6 (f1 || f2 || f3 || f4 || f5 || f6)
+
+/-- decoderState.consumeArray at `p` (`u[p]` is `[`) -/
+def sArray (o : VOpts) : Nat → Nat → Bytes → Nat → List Event → VRes
+  | 0, _, u, _, es => .done 0 .fuel u es false
+  | fuel + 1, depth, u, p, es =>
+    if depth == maxNestingDepth + 1 then .done 0 .maxDepth u es false else
+    match wsAt u (p + 1) es with
+    | .fault u1 es1 => .fault u1 es1
+    | .done (w, found) u1 es1 f1 =>
+      if !found then .done (1 + w) .eof u1 es1 f1
+      else if byteAt u1 (p + 1 + w) == 0x5D then .done (1 + w + 1) .ok u1 es1 f1
+      else (sArrayLoop o fuel (depth + 1) u1 (p + 1 + w) es1).addOff (1 + w) f1
+
+/-- the `for` loop of consumeArray from `p` on -/
+def sArrayLoop (o : VOpts) : Nat → Nat → Bytes → Nat → List Event → VRes
+  | 0, _, u, _, es => .done 0 .fuel u es false
+  | fuel + 1, depth, u, p, es =>
+    match wsAt u p es with
+    | .fault u1 es1 => .fault u1 es1
+    | .done (w, found) u1 es1 f1 =>
+      if !found then .done w .eof u1 es1 f1 else
+      match sValue o fuel depth u1 (p + w) es1 with
+      | .fault u2 es2 => .fault u2 es2
+      | .done k e u2 es2 f2 =>
+        if e != .ok then .done (w + k) e u2 es2 (f1 || f2) else
+        match wsAt u2 (p + w + k) es2 with
+        | .fault u3 es3 => .fault u3 es3
+        | .done (w4, found4) u3 es3 f3 =>
+          if !found4 then .done (w + k + w4) .eof u3 es3 (f1 || f2 || f3)
+          else if byteAt u3 (p + w + k + w4) == 0x2C then
+            (sArrayLoop o fuel depth u3 (p + w + k + w4 + 1) es3).addOff (w + k + w4 + 1) (f1 || f2 || f3)
+          else if byteAt u3 (p + w + k + w4) == 0x5D then .done (w + k + w4 + 1) .ok u3 es3 (f1 || f2 || f3)
+          else .done (w + k + w4) .invalidChar u3 es3 (f1 || f2 || f3)
+end
+
+/-- The common head of ReadToken / ReadValue / PeekKind without a cached peek (decode.go:486-516, 695-725, 324-356),
+on the unread buffer `u`: leading blanks, end of input, an optional `:`/`,` and blanks (a read error there is
+outranked by an invalid delimiter: `checkDelimBeforeIOError`), `needDelim`; then `lex` handles what starts at the
+position found. -/
+def scanWith (st : TState) (lex : Bytes → Nat → List Event → Bool → SRes) (u : Bytes) (es : List Event) : SRes :=
   match sWhitespace u 0 es with
   | .fault u1 es1 => .fault u1 es1
   | .done (w, found) u1 es1 f1 =>
@@ -203,10 +368,32 @@ def scanToken (o : VOpts) (st : TState) (u : Bytes) (es : List Event) : SRes :=
               | [] => .res (.err (w + 1 + p) .bug) (w + 1 + p) (u1.take (w + 1) ++ v2) es2 (f1 || f2)
               | c1 :: _ =>
                 if st.m.needDelim (normKind c1) != c then .res (.err w .invalidChar) w (u1.take (w + 1) ++ v2) es2 (f1 || f2)
-                else lexS o st (u1.take (w + 1) ++ v2) (w + 1 + p) es2 (f1 || f2)
+                else lex (u1.take (w + 1) ++ v2) (w + 1 + p) es2 (f1 || f2)
         else
           if st.m.needDelim (normKind c) != 0 then .res (.err w .invalidChar) w u1 es1 f1
-          else lexS o st u1 w es1 f1
+          else lex u1 w es1 f1
+
+/-- `decoderState.ReadToken` without a cached peek -/
+def scanToken (o : VOpts) (st : TState) (u : Bytes) (es : List Event) : SRes :=
+  scanWith st (lexS o st) u es
+
+/-- the same head on a whole buffer `r` (the body of `TokenLoop.readToken` with the `switch next` abstracted) -/
+def wholeWith (st : TState) (lexW : Nat → Bytes → TRes) (r : Bytes) : TRes :=
+  let w := Wire.consumeWhitespace r
+  match r.drop w with
+  | [] => .err w (if st.m.depth == 1 then .ioEOF else .eof)
+  | c :: rest =>
+    if c == 0x3A || c == 0x2C then
+      let w2 := Wire.consumeWhitespace rest
+      match rest.drop w2 with
+      | [] =>
+        if st.m.needDelim 0x22 != c then .err w .invalidChar else .err (w + 1 + w2) .eof
+      | c1 :: rest1 =>
+        if st.m.needDelim (normKind c1) != c then .err w .invalidChar
+        else lexW (w + 1 + w2) (c1 :: rest1)
+    else
+      if st.m.needDelim (normKind c) != 0 then .err w .invalidChar
+      else lexW w (c :: rest)
 
 /-! ### the decoder -/
 
@@ -218,12 +405,14 @@ structure SState where
 /-- `NewDecoder(r)` over a reader that will behave as `es` -/
 def init (es : List Event) : SState := { w := Window.init (avail es), events := es }
 
-/-- what one ReadToken returns: the transient I/O error, a syntactic error at an ABSOLUTE offset, or a token
-given by its kind and the absolute offsets of its first byte and of its end (`InputOffset` afterwards) -/
+/-- what one call returns: the transient I/O error, a syntactic error at an ABSOLUTE offset, a token or value
+given by its kind and the absolute offsets of its first byte and of its end (`InputOffset` afterwards), or — for
+SkipValue, which returns nothing — the offset it stopped at -/
 inductive Out where
   | fault
   | err (off : Nat) (e : Wire.Err)
   | tok (kind : UInt8) (start stop : Nat)
+  | skip (stop : Nat)
   deriving Repr, DecidableEq
 
 /-- all `fetch`es of one call at once (`Window.fetch (fetch w j) k = fetch w (j + k)`): `k` bytes were delivered -/
@@ -235,12 +424,13 @@ def kindAt (u : Bytes) (pos : Nat) : UInt8 :=
   | c :: _ => normKind c
   | [] => 0
 
-/-- `decoderState.ReadToken`: invalidate the previous token, scan on the unread part, apply the refills to the
-window, and on success set `d.prevStart, d.prevEnd` (`pos-n, pos` for strings and numbers, `pos, pos` otherwise). -/
-def readToken (o : VOpts) (s : SState) : Out × SState :=
+/-- The frame of ReadToken and ReadValue: invalidate the previous token, scan on the unread part (`lex` is the
+`switch next`), apply the refills to the window, and on success set `d.prevStart, d.prevEnd`: `span k` says whether
+the bytes of a result of kind `k` stay addressable (`pos-n, pos`) or not (`pos, pos`). -/
+def readWith (lex : TState → Bytes → Nat → List Event → Bool → SRes) (span : UInt8 → Bool) (s : SState) : Out × SState :=
   let w0 := Window.invalidate s.w
   let u := w0.unread
-  match scanToken o s.st u s.events with
+  match scanWith s.st (lex s.st) u s.events with
   | .fault u' es' =>
     (.fault, { s with w := commitFetch w0 true (u'.length - u.length), events := es' })
   | .res r start u' es' fetched =>
@@ -251,14 +441,101 @@ def readToken (o : VOpts) (s : SState) : Out × SState :=
       let k := kindAt u' start
       (.tok k (w1.inputOffset + start) (w1.inputOffset + n),
        { st := st', events := es',
-         w := Window.advance w1 (w1.prevEnd + (if k == 0x22 || k == 0x30 then start else n)) (w1.prevEnd + n) })
+         w := Window.advance w1 (w1.prevEnd + (if span k then start else n)) (w1.prevEnd + n) })
 
-/-- `n` ReadToken calls in a row (continuing after errors, as a caller may) -/
+/-- `decoderState.ReadToken` (strings and numbers keep their bytes) -/
+def readToken (o : VOpts) (s : SState) : Out × SState :=
+  readWith (lexS o) (fun k => k == 0x22 || k == 0x30) s
+
+/-- the state machine part of ReadValue for `{…}` / `[…]` (decode.go:756-770): push, then pop again -/
+def containerFeed (st : TState) (pos n : Nat) (k : UInt8) : TRes :=
+  if k == 0x7B then
+    match st.m.pushObject maxNestingDepth with
+    | .error se => .err pos (smErr se)
+    | .ok m1 =>
+      match m1.popObject with
+      | .error _ => .err pos .bug          -- `panic("BUG: popObject should never fail …")`
+      | .ok m2 => .tok (pos + n) { st with m := m2 }
+  else
+    match st.m.pushArray maxNestingDepth with
+    | .error se => .err pos (smErr se)
+    | .ok m1 =>
+      match m1.popArray with
+      | .error _ => .err pos .bug
+      | .ok m2 => .tok (pos + n) { st with m := m2 }
+
+def isScalarKind (k : UInt8) : Bool := k == 0x6E || k == 0x66 || k == 0x74 || k == 0x22 || k == 0x30
+
+/-- the part of ReadValue behind the head (decode.go:728-776): consumeValue at `pos`, then the state machine.
+For the scalar kinds consumeValue runs the same scanners and the state machine is offered the same thing as in
+ReadToken, so that arm is `lexS`; a container is scanned completely BEFORE the state machine is asked. -/
+def valS (o : VOpts) (fuel : Nat) (st : TState) (u : Bytes) (pos : Nat) (es : List Event) (f0 : Bool) : SRes :=
+  if isScalarKind (kindAt u pos) then lexS o st u pos es f0
+  else if kindAt u pos == 0x7B || kindAt u pos == 0x5B then
+    match sValue o fuel st.m.depth u pos es with
+    | .fault u' es' => .fault u' es'
+    | .done n e u' es' f1 =>
+      .res (if e != .ok then .err (pos + n) e else containerFeed st pos n (kindAt u pos)) pos u' es' (f0 || f1)
+  else .res (.err pos (if kindAt u pos == 0x7D then .mismatchDelim else .invalidChar)) pos u es f0
+
+/-- `decoderState.ReadValue` (the value's bytes stay addressable whatever its kind).  `fuel` only bounds the
+recursion of the model; Validate.fuelFor of everything that is left always suffices. -/
+def readValue (o : VOpts) (s : SState) : Out × SState :=
+  readWith (valS o (fuelFor (s.w.unread ++ avail s.events))) (fun _ => true) s
+
+/-- `decoderState.PeekKind` without its cache: find the kind of the next token (refilling as needed), consume
+nothing.  `none`: the reader faulted; kind 0: an error that the next read call will report. -/
+def peek (s : SState) : Option UInt8 × SState :=
+  let w0 := Window.invalidate s.w
+  let u := w0.unread
+  match scanWith s.st (fun u pos es f => .res (.tok pos s.st) pos u es f) u s.events with
+  | .fault u' es' => (none, { s with w := commitFetch w0 true (u'.length - u.length), events := es' })
+  | .res r start u' es' fetched =>
+    let w1 := commitFetch w0 fetched (u'.length - u.length)
+    match r with
+    | .err _ _ => (some 0, { s with w := w1, events := es' })
+    | .tok _ _ => (some (kindAt u' start), { s with w := w1, events := es' })
+
+/-- the loop of SkipValue for objects and arrays: ReadToken until the depth is back -/
+def skipLoop (o : VOpts) : Nat → Nat → SState → Out × SState
+  | 0, _, s => (.err 0 .fuel, s)
+  | fuel + 1, depth, s =>
+    match readToken o s with
+    | (.tok _ _ b, s') => if depth ≥ s'.st.m.depth then (.skip b, s') else skipLoop o fuel depth s'
+    | (out, s') => (out, s')
+
+/-- `decoderState.SkipValue` (decode.go:416): by tokens for `{`/`[`, otherwise ReadValue.  A fault inside the token
+loop is returned with the decoder part-way through the value. -/
+def skipValue (o : VOpts) (s : SState) : Out × SState :=
+  match peek s with
+  | (none, s1) => (.fault, s1)
+  | (some k, s1) =>
+    if k == 0x7B || k == 0x5B then skipLoop o ((s1.w.unread ++ avail s1.events).length + 1) s1.st.m.depth s1
+    else
+      match readValue o s1 with
+      | (.tok _ _ b, s2) => (.skip b, s2)
+      | r => r
+
+inductive Call where
+  | readToken | readValue | skipValue
+  deriving Repr, DecidableEq
+
+def call (o : VOpts) : Call → SState → Out × SState
+  | .readToken => readToken o
+  | .readValue => readValue o
+  | .skipValue => skipValue o
+
+/-- a script of calls (continuing after errors, as a caller may) -/
+def runScript (o : VOpts) : List Call → SState → List Out
+  | [], _ => []
+  | c :: cs, s => (call o c s).1 :: runScript o cs (call o c s).2
+
+/-- `n` ReadToken calls in a row -/
 def run (o : VOpts) : Nat → SState → List Out
   | 0, _ => []
   | n + 1, s => (readToken o s).1 :: run o n (readToken o s).2
 
-/-! ### the same calls on the whole input at once (TokenLoop.readToken), in the same vocabulary -/
+/-! ### the same calls on the whole input at once (TokenLoop / Validate), in the same vocabulary -/
 
 /-- where the token of the next ReadToken starts in the unread input `r`: behind blanks, an optional `:`/`,`, blanks -/
 def wholeStart (r : Bytes) : Nat :=
@@ -274,11 +551,52 @@ structure WState where
   r : Bytes
   off : Nat := 0
 
-def wholeRead (o : VOpts) (s : WState) : Out × WState :=
-  match TokenLoop.readToken o s.st s.r with
+def wholeReadWith (lexW : TState → Nat → Bytes → TRes) (s : WState) : Out × WState :=
+  match wholeWith s.st (lexW s.st) s.r with
   | .err k e => (.err (s.off + k) e, s)
   | .tok n st' =>
     (.tok (kindAt s.r (wholeStart s.r)) (s.off + wholeStart s.r) (s.off + n), { st := st', r := s.r.drop n, off := s.off + n })
+
+/-- ReadToken over the whole input: `TokenLoop.readToken` (= `wholeWith st (lexToken o st)`) -/
+def wholeRead (o : VOpts) (s : WState) : Out × WState := wholeReadWith (lexToken o) s
+
+/-- the `switch next` of ReadValue over the whole input: `Validate.consumeValue` for containers -/
+def valW (o : VOpts) (fuel : Nat) (st : TState) (pos : Nat) (r : Bytes) : TRes :=
+  if isScalarKind (kindAt r 0) then lexToken o st pos r
+  else if kindAt r 0 == 0x7B || kindAt r 0 == 0x5B then
+    if (consumeValue o fuel st.m.depth r).2 != .ok then .err (pos + (consumeValue o fuel st.m.depth r).1) (consumeValue o fuel st.m.depth r).2
+    else containerFeed st pos (consumeValue o fuel st.m.depth r).1 (kindAt r 0)
+  else .err pos (if kindAt r 0 == 0x7D then .mismatchDelim else .invalidChar)
+
+def wholeReadValue (o : VOpts) (s : WState) : Out × WState := wholeReadWith (valW o (fuelFor s.r)) s
+
+def wholePeek (s : WState) : UInt8 :=
+  match wholeWith s.st (fun pos _ => .tok pos s.st) s.r with
+  | .err _ _ => 0
+  | .tok _ _ => kindAt s.r (wholeStart s.r)
+
+def wholeSkipLoop (o : VOpts) : Nat → Nat → WState → Out × WState
+  | 0, _, s => (.err 0 .fuel, s)
+  | fuel + 1, depth, s =>
+    match wholeRead o s with
+    | (.tok _ _ b, s') => if depth ≥ s'.st.m.depth then (.skip b, s') else wholeSkipLoop o fuel depth s'
+    | (out, s') => (out, s')
+
+def wholeSkipValue (o : VOpts) (s : WState) : Out × WState :=
+  if wholePeek s == 0x7B || wholePeek s == 0x5B then wholeSkipLoop o (s.r.length + 1) s.st.m.depth s
+  else
+    match wholeReadValue o s with
+    | (.tok _ _ b, s2) => (.skip b, s2)
+    | r => r
+
+def wholeCall (o : VOpts) : Call → WState → Out × WState
+  | .readToken => wholeRead o
+  | .readValue => wholeReadValue o
+  | .skipValue => wholeSkipValue o
+
+def wholeScript (o : VOpts) : List Call → WState → List Out
+  | [], _ => []
+  | c :: cs, s => (wholeCall o c s).1 :: wholeScript o cs (wholeCall o c s).2
 
 def wholeRun (o : VOpts) : Nat → WState → List Out
   | 0, _ => []
